@@ -1,5 +1,6 @@
 import PybtexModel.Drv.Json
 import PybtexModel.Model.BstParse
+import PybtexModel.Model.BstErrorText
 open Lean
 namespace Pybtex.Drv.C15
 open Pybtex.Bst Pybtex.Scanner
@@ -23,16 +24,23 @@ def cmdJ (c : Bst.Command) : Json :=
 
 def progJ (p : Program) : Json := arr (p.map cmdJ)
 
-def resJ : Except Err Program → Json
+/-- the fields of a rejected source: class, `lineno`, `args[0]`, `str(error)`, `error.filename` -/
+def errJ (fn : Option Str) : Err → Json
+  | .eof => obj [("err", Json.str "EOFError")]
+  | .outOfFuel => obj [("err", Json.str "MODEL:outOfFuel")]
+  | e =>
+    let cls := match e with
+      | .prematureEOF _ => "PrematureEOF"
+      | .tokenRequired _ _ => "TokenRequired"
+      | _ => "PybtexSyntaxError"
+    obj [("err", Json.str cls), ("line", optJ nat (errLine e)), ("msg", optJ strToJson (errMessage e)),
+         ("str", optJ strToJson (errStr e)), ("filename", optJ strToJson fn)]
+
+def resJF (fn : Option Str) : Except Err Program → Json
   | .ok p => obj [("ok", progJ p)]
-  | .error .eof => obj [("err", Json.str "EOFError")]
-  | .error (.prematureEOF l) =>
-    obj [("err", Json.str "PrematureEOF"), ("line", nat l), ("msg", Json.str "premature end of file")]
-  | .error (.tokenRequired d l) =>
-    obj [("err", Json.str "TokenRequired"), ("line", nat l), ("msg", strToJson (d ++ " expected".toList))]
-  | .error (.syntaxError m l) =>
-    obj [("err", Json.str "PybtexSyntaxError"), ("line", nat l), ("msg", strToJson m)]
-  | .error .outOfFuel => obj [("err", Json.str "MODEL:outOfFuel")]
+  | .error e => errJ fn e
+
+def resJ : Except Err Program → Json := resJF none
 
 /-! flat form of the abstract syntax (no nested JSON, integers as decimal strings): used for very
 deep nesting and very long integers, which neither side's JSON library handles -/
@@ -52,9 +60,9 @@ end
 def progFlat (p : Program) : Json :=
   arr (p.map fun c => obj [("c", strToJson c.name), ("g", arr (c.groups.map fun g => arr (toksFlat g)))])
 
-def resFlat : Except Err Program → Json
+def resFlatF (fn : Option Str) : Except Err Program → Json
   | .ok p => obj [("ok_flat", progFlat p), ("depth", nat (Program.depth p))]
-  | r => resJ r
+  | r => resJF fn r
 
 /-! reading the abstract syntax, lexemes and lay-outs -/
 
@@ -119,13 +127,18 @@ def layoutOfJ (j : Json) : Except String Layout := do
     | .error _ => pure none
   pure ⟨gaps, tr⟩
 
+/-- the harness writes the name of its scratch file as `<FILE>` -/
+def fileTag : Str := "<FILE>".toList
+
 def outcomes (text : Str) : List (String × Json) :=
-  [("string", resJ (parseString text)), ("stream", resJ (parseStream text)),
-   ("file", resJ (parseFile text))]
+  [("string", resJF none (parseString text)),
+   ("stream", resJF (some streamDefaultFilename) (parseStream text)),
+   ("file", resJF (some fileTag) (parseFile text))]
 
 def outcomesFlat (text : Str) : List (String × Json) :=
-  [("string", resFlat (parseString text)), ("stream", resFlat (parseStream text)),
-   ("file", resFlat (parseFile text))]
+  [("string", resFlatF none (parseString text)),
+   ("stream", resFlatF (some streamDefaultFilename) (parseStream text)),
+   ("file", resFlatF (some fileTag) (parseFile text))]
 
 /-- deepest brace nesting of a text (counted on the characters; for the resource-limit cases) -/
 def braceDepth (s : Str) : Nat :=
@@ -273,9 +286,112 @@ def bsteq (j : Json) : Except String Json := do
              ("spec", obj [("wf", Json.bool (decide (WFProg p1) && decide (WFProg p2))),
                            ("same", Json.bool ((progJ p1).compress == (progJ p2).compress))])])
 
+/-! ### function-level ops (one function of the code each) -/
+
+def kindName : TokKind → String
+  | .name => "name" | .string => "string" | .integer => "integer" | .lbrace => "'{'" | .rbrace => "'}'"
+
+/-- the pattern lists the code hands to `required`, with `description` and `allow_eof` -/
+def patsOf (which : String) : Except String (List (TokKind × Pattern) × Option Str × Bool) :=
+  match which with
+  | "group" => pure (groupPats, none, false)
+  | "command" => pure ([(TokKind.name, namePat)], some "BST command".toList, true)
+  | "lbrace" => pure ([(TokKind.lbrace, lbracePat)], none, false)
+  | _ => throw s!"unknown pattern list {which}"
+
+def stJ (text : Str) (st : St) : List (String × Json) :=
+  [("pos", nat (posOf text st)), ("lineno", nat st.line)]
+
+/-- op `bstscan`: a scanner on `text` at (`pos`, `lineno`); `which` = `ws` (`eat_whitespace`),
+`upd` (`update_lineno(text)`: the new line number), or a pattern list (`required`): token,
+position and line afterwards, or the error and where the scanner stands -/
+def bstscan (j : Json) : Except String Json := do
+  let text ← getStr j "text"
+  let pos ← getNat j "pos"
+  let ln ← getNat j "lineno"
+  let which ← j.getObjValAs? String "which"
+  let st := stAt text pos ln
+  if which == "ws" then
+    pure (obj [("out", obj (stJ text (eatWs st)))])
+  else if which == "upd" then
+    pure (obj [("out", obj [("lineno", nat (ln + countNewlines text))])])
+  else
+    let (pats, d, eof) ← patsOf which
+    match required pats d eof st with
+    | .ok ((k, v), st1) =>
+      pure (obj [("out", obj ([("tok", arr [Json.str (kindName k), strToJson v])] ++ stJ text st1))])
+    | .error e =>
+      pure (obj [("out", obj ([("error", errJ none e)] ++ stJ text (eatWs st)))])
+
+/-- op `bstgroup`: `list(parser.parse_group())` / `list(parser.parse_command())` of a parser on
+`text` at (`pos`, `lineno`), with the position and line afterwards -/
+def bstgroup (j : Json) : Except String Json := do
+  let text ← getStr j "text"
+  let pos ← getNat j "pos"
+  let ln ← getNat j "lineno"
+  let which ← j.getObjValAs? String "which"
+  let st := stAt text pos ln
+  if which == "group" then
+    match parseGroup st with
+    | .ok (ts, st1) => pure (obj [("out", obj ([("toks", arr (toksFlat ts))] ++ stJ text st1))])
+    | .error e => pure (obj [("out", obj [("error", errJ none e)])])
+  else
+    match parseCommand st with
+    | .ok (c, st1) => pure (obj [("out", obj ([("cmd", progFlat [c])] ++ stJ text st1))])
+    | .error e => pure (obj [("out", obj [("error", errJ none e)])])
+
+/-- op `bstlit`: `LITERAL_TYPES[pattern](value)` for a token value of that pattern
+(`process_string_literal` / `process_int_literal` / `process_identifier`); `ValueError` where
+`int()` refuses the digits -/
+def bstlit (j : Json) : Except String Json := do
+  let v ← getStr j "value"
+  let kind ← j.getObjValAs? String "kind"
+  let k ← match kind with
+    | "string" => pure TokKind.string
+    | "integer" => pure TokKind.integer
+    | "name" => pure TokKind.name
+    | _ => throw s!"unknown literal kind {kind}"
+  match mkLiteralE k v 1 with
+  | .ok t => pure (obj [("out", arr (tokFlat t))])
+  | .error _ => pure (obj [("out", obj [("err", Json.str "ValueError")])])
+
+/-- op `bstlines`: the line conventions of the three entry points and the text each hands to
+`BstParser` -/
+def bstlines (j : Json) : Except String Json := do
+  let src ← getStr j "src"
+  pure (obj [("out", obj [("splitlines", strs (splitLines src)),
+                          ("stream", strs (streamLines src)),
+                          ("file", strs (streamLines (universalNewlines src))),
+                          ("rstrip", strs ((streamLines src).map rstrip)),
+                          ("text_string", strToJson (stringText src)),
+                          ("text_stream", strToJson (streamText (streamLines src))),
+                          ("text_file", strToJson (fileText src))])])
+
+/-- all code points (surrogates left out) satisfying `p` -/
+def codePoints (p : Char → Bool) : List Nat :=
+  ((List.range 0x110000).filter fun n =>
+    (n < 0xD800 || 0xDFFF < n) && p (Char.ofNat n))
+
+/-- op `bstconst`: the character classes of the token patterns over ALL code points, the pattern
+descriptions and the fixed texts of the model -/
+def bstconst (_ : Json) : Except String Json := do
+  let natsJ (l : List Nat) : Json := arr (l.map nat)
+  pure (obj [("out", obj [
+    ("not_name", natsJ (codePoints fun c => !isNameChar c)),
+    ("digit", natsJ (codePoints isDigit)),
+    ("ws", natsJ (codePoints isWs)),
+    ("linesep", natsJ (codePoints isLineSep)),
+    ("not_string_body", natsJ (codePoints fun c => !(c != '"'))),
+    ("descriptions", strs (groupPats.map fun p => p.2.desc)),
+    ("group_expected", strToJson (describe groupPats)),
+    ("error_type", strToJson errorType),
+    ("stream_filename", strToJson streamDefaultFilename),
+    ("ascii_upper", strToJson (upper ((List.range 0x250).map Char.ofNat)))])])
+
 /-- driver ops of this property: (op name, handler) -/
 def handlers : List (String × (Json → Except String Json)) :=
   [("bstparse", bstparse), ("bststrip", bststrip), ("bstrt", bstrt), ("bstlex", bstlex),
-   ("bsteq", bsteq)]
+   ("bsteq", bsteq), ("bstscan", bstscan), ("bstgroup", bstgroup), ("bstlit", bstlit),
+   ("bstlines", bstlines), ("bstconst", bstconst)]
 
 end Pybtex.Drv.C15
